@@ -269,10 +269,54 @@ pub fn replay(ctx: &Arc<Ctx>, v: &Value) {
     eval(ctx, &c);
 }
 
+/// Messages "shape #i" whose signature under (Annex d, Annex k, default ID) has a particular shape: r||s that starts like a
+/// DER SEQUENCE of the right length (30 3e ..), and t = r + s with its 16 low bits clear (a window of zero digits at the
+/// end of the scalar of [t]P). One SM3 and one modular product per trial, about 2^17 trials.
+pub fn signature_shapes() -> Vec<(String, String)> {
+    static CACHE: std::sync::OnceLock<Vec<(String, String)>> = std::sync::OnceLock::new();
+    CACHE
+        .get_or_init(|| {
+            let n = sm2::params().n.clone();
+            let (d, k) = (hb(ANNEX_D), hb(ANNEX_K));
+            let pk = sm2::g_mul(&d);
+            let za = sm2::za(sm2::DEFAULT_ID, &pk);
+            let x1 = sm2::g_mul(&k).unwrap().0;
+            let inv1d = (BigUint::from(1u32) + &d).modpow(&(&n - 2u32), &n);
+            let mut base = refmodels::sm3::Sm3::new();
+            base.update(&za);
+            let mut found: std::collections::BTreeMap<&str, String> = Default::default();
+            let mask16 = BigUint::from(0xffffu32);
+            for ctr in 0..(1u64 << 22) {
+                if found.len() == 2 {
+                    break;
+                }
+                let msg = format!("shape #{}", ctr);
+                let mut h = base.clone();
+                h.update(msg.as_bytes());
+                let e = refmodels::util::from_be(&h.finish());
+                let r = (&e + &x1) % &n;
+                let looks_der = (&r >> 240usize) == BigUint::from(0x303eu32);
+                let sv = (&inv1d * ((&k + &n * &n - (&r * &d)) % &n)) % &n;
+                let t_low_zero = (((&r + &sv) % &n) & &mask16).is_zero();
+                if r.is_zero() || sv.is_zero() || (&r + &k) == n {
+                    continue;
+                }
+                if looks_der && !found.contains_key("r-starts-303e") {
+                    found.insert("r-starts-303e", msg.clone());
+                }
+                if t_low_zero && !found.contains_key("t-low-16-bits-zero") {
+                    found.insert("t-low-16-bits-zero", msg.clone());
+                }
+            }
+            found.into_iter().map(|(k, v)| (k.to_string(), v)).collect()
+        })
+        .clone()
+}
+
 pub fn run(ctx: &Arc<Ctx>) {
     refmodels::selftest::run(&["sm3", "sm2"]).unwrap_or_else(|e| ctx.machinery_error(format!("reference self-test failed: {}", e)));
     let n = sm2::params().n.clone();
-    ctx.set_rule("private keys d x nonces k (via the RNG seam) over {1,2,3,n-2,n-3,2^255,2^128-1,limb patterns,Annex,seeded} with two (ID,message) pairs, plus IDs {default, \"\", 1, 16, 8191 bytes, seeded} x message lengths {0,1,31,32,33,55,56,64,119,4096} x {zero, seeded} with two (d,k) pairs, every message length and every ID length 0..=300 (thorough 1200) with one; key objects whose public point is affine or Jacobian with Z in {2, p-1, seeded} sign and verify identically; ID of 8192 bytes must be refused; pre-searched messages whose digest e is >= n; GM/T 0003.5 Annex A exact; OpenSSL signature corpus. Per case: 64 bytes, r,s in [1,n-1], exact equality with the reference signature for the nonce the seam reports as accepted, reference verifier accepts, library verifier accepts its own and a reference-made signature.");
+    ctx.set_rule("private keys d x nonces k (via the RNG seam) over {1,2,3,n-2,n-3,2^255,2^128-1,limb patterns,Annex,seeded} with two (ID,message) pairs, keys with (1+d)^-1 in {2, 3, 2^64+1, 2^127+3, 2^191+5, 2^192+2^64} and keys whose low limbs are all ones, plus IDs {default, \"\", 1, 16, 8191 bytes, seeded} x message lengths {0,1,31,32,33,55,56,64,119,4096} x {zero, seeded} with two (d,k) pairs, every message length and every ID length 0..=300 (thorough 1200) with one; key objects whose public point is affine or Jacobian with Z in {2, p-1, seeded} sign and verify identically; ID of 8192 bytes must be refused; pre-searched messages whose digest e is >= n; messages searched at run time so that r||s starts like a DER SEQUENCE (30 3e) and so that r + s has its 16 low bits clear; GM/T 0003.5 Annex A exact; OpenSSL signature corpus. Per case: 64 bytes, r,s in [1,n-1], exact equality with the reference signature for the nonce the seam reports as accepted, reference verifier accepts, library verifier accepts its own and a reference-made signature.");
     // d in [1, n-2]: top element n-2; k in [1, n-1]: top element n-1
     let ds = scalar_alphabet(&n, ctx.seed, "c03d", 2);
     let ks = scalar_alphabet(&n, ctx.seed, "c03k", 1);
@@ -284,6 +328,34 @@ pub fn run(ctx: &Arc<Ctx>) {
             for (id, ml) in &id_msgs {
                 cases.push(Case::Sign { d: hexbig(d), id: id.clone(), msg_len: *ml, msg_class: "seed".into(), k: hexbig(k), tag: format!("d={}/k={}", dn, kn) });
             }
+        }
+    }
+    // keys chosen through the value the signer inverts: (1 + d)^-1 = w for short / sparse w (an inverse routine that
+    // mishandles results with leading zero limbs), and d whose low limb is all ones (the +1 must carry)
+    {
+        let one = BigUint::from(1u32);
+        let ws: Vec<(String, BigUint)> = vec![("2".into(), BigUint::from(2u32)), ("3".into(), BigUint::from(3u32)), ("2^64+1".into(), (&one << 64usize) + 1u32), ("2^127+3".into(), (&one << 127usize) + 3u32), ("2^191+5".into(), (&one << 191usize) + 5u32), ("2^192+2^64".into(), (&one << 192usize) + (&one << 64usize))];
+        for (wn, w) in &ws {
+            let d = (w.modpow(&(&n - 2u32), &n) + &n - 1u32) % &n;
+            if d >= one && d <= &n - 2u32 {
+                for (kn, k) in ks.iter().take(3) {
+                    cases.push(Case::Sign { d: hexbig(&d), id: None, msg_len: 32, msg_class: "seed".into(), k: hexbig(k), tag: format!("(1+d)^-1={}/k={}", wn, kn) });
+                }
+            }
+        }
+        for dl in [(&one << 64usize) - 1u32, ((&one << 128usize) - 1u32), (BigUint::from(0xb51au32) << 64usize) + ((&one << 64usize) - 1u32)] {
+            cases.push(Case::Sign { d: hexbig(&dl), id: None, msg_len: 32, msg_class: "seed".into(), k: ANNEX_K.into(), tag: "d-low-limbs-all-ones".into() });
+        }
+    }
+    // messages searched (fixed Annex d and k, message "shape #i") so that the signature has a particular shape
+    {
+        let found = signature_shapes();
+        for (kind, msg) in &found {
+            cases.push(Case::Sign { d: ANNEX_D.into(), id: None, msg_len: msg.len(), msg_class: format!("hex:{}", hex::encode(msg.as_bytes())), k: ANNEX_K.into(), tag: format!("signature-shape/{}", kind) });
+        }
+        ctx.cov("searched_signature_shapes", json!(found.iter().map(|(k, _)| k.clone()).collect::<Vec<_>>()));
+        if found.len() != 2 {
+            ctx.machinery_error("signature-shape search found nothing");
         }
     }
     let ids: Vec<Option<String>> = vec![None, Some("".into()), Some("A".into()), Some("len:16".into()), Some("len:8191".into()), Some("len:37".into()), Some("1234567812345678".into()), Some("用户甲@例.cn".into()), Some("Zoë".into()), Some("alice ".into()), Some("alice\n".into()), Some(" alice".into()), Some("ALICE".into()), Some("alice\0".into()), Some("alice".into())];
